@@ -1,7 +1,7 @@
 //! C17 batch: the threaded `new` scenarios (decided by schedule/fault
 //! search, engine E2) followed by the parser workload (sampled, engine E1).
 
-use super::crashcase::{chain_boundary_case, gen_crash_case, CHAIN_ENUM};
+use super::crashcase::{chain_boundary_case, gen_crash_case, typed_int_boundary_case, CHAIN_ENUM, TYPED_INT_ENUM};
 use super::newplans::{c17_new_enumerated, c17_new_seeded, C17_NEW_ENUM};
 
 /// searches of 17..40 draws for every supported length x 0, 1, 2 workers: whatever is kept per
@@ -20,10 +20,10 @@ pub struct C17Plan {
 
 impl Plan for C17Plan {
     fn total(&self) -> usize {
-        C17_NEW_ENUM + CHAIN_ENUM + DEEP_ENUM + self.seeded_new + self.seeded_crash
+        C17_NEW_ENUM + CHAIN_ENUM + DEEP_ENUM + TYPED_INT_ENUM + self.seeded_new + self.seeded_crash
     }
     fn enumerated(&self) -> usize {
-        C17_NEW_ENUM + CHAIN_ENUM + DEEP_ENUM
+        C17_NEW_ENUM + CHAIN_ENUM + DEEP_ENUM + TYPED_INT_ENUM
     }
     fn case(&self, idx: usize) -> AnyCase {
         if idx < C17_NEW_ENUM {
@@ -32,10 +32,15 @@ impl Plan for C17Plan {
         if idx < C17_NEW_ENUM + CHAIN_ENUM {
             return AnyCase::Crash(chain_boundary_case(idx - C17_NEW_ENUM));
         }
-        let mut rng = Rng::new(run_seed(self.seed, 0xC17, idx as u64));
         if idx < C17_NEW_ENUM + CHAIN_ENUM + DEEP_ENUM {
             return AnyCase::New(super::newplans::c17_deep_search(idx - C17_NEW_ENUM - CHAIN_ENUM));
         }
+        let idx = if idx < C17_NEW_ENUM + CHAIN_ENUM + DEEP_ENUM + TYPED_INT_ENUM {
+            return AnyCase::Crash(typed_int_boundary_case(idx - C17_NEW_ENUM - CHAIN_ENUM - DEEP_ENUM));
+        } else {
+            idx - TYPED_INT_ENUM
+        };
+        let mut rng = Rng::new(run_seed(self.seed, 0xC17, idx as u64));
         if idx < C17_NEW_ENUM + CHAIN_ENUM + DEEP_ENUM + self.seeded_new {
             AnyCase::New(c17_new_seeded(&mut rng))
         } else {
@@ -47,7 +52,7 @@ impl Plan for C17Plan {
             "Case i is a pure function of (VERIF_SEED, i). (i) Decided by schedule/fault search, engine E2: [0,{C17_NEW_ENUM}) worker counts \
              {{0..8,16,32,64}} x 14 argument tuples (valid search; entropy failure at request 0 / 1; malformed and out-of-range --vanity-hd-path; account indices \
              2^31, 2^32-1, 2^32, 2^64-1, 2^64; upper-case prefix; 13 words) and then seeded `new` scenarios (junk numbers, paths, prefixes, lengths, languages, \
-             0..4 planned entropy responses incl. failures, scheduler policy random/sticky/PCT-like); then 56 enumerated legacy transactions with the chain id at the EIP-155 v-overflow limit (2^256-37)/2 -3..+3, decimal and hex, through `hash transaction --signature` with both parities and `sign transaction`; invariant: no task panics, no deadlock before exit, exit within \
+             0..4 planned entropy responses incl. failures, scheduler policy random/sticky/PCT-like); then 56 enumerated legacy transactions with the chain id at the EIP-155 v-overflow limit (2^256-37)/2 -3..+3, decimal and hex, through `hash transaction --signature` with both parities and `sign transaction`; then 2112 enumerated typed-data documents with one intN/uintN member (N = 8..256 step 8) at every boundary of its range (0, 2^(N-1)-1, 2^(N-1), 2^N-1, 2^N, their negatives, -2^(N-1)+-1) as number, decimal string and hex string; invariant: no task panics, no deadlock before exit, exit within \
              384+32*workers further entropy requests once every entropy response matches, step budget 4000+400*(plan+workers). (ii) Sampled by the workload, engine E1 (real binary): \
              seeded boundary-biased and mutated-valid inputs for mnemonic phrases (0..40 words, valid/invalid checksum), paths and indices around 2^31/2^32/2^64 \
              (flags and environment), signature text (scalars 0,1,n-1,n,2^256-1; v 0,26..29,255; lengths 0..140), digests, transaction JSON (every numeric field at \
